@@ -809,8 +809,13 @@ asn_double2REAL(REAL_t *st, double dbl_value) {
 		*ptr++ = expval;
 	}
 
-	buflen = (mstop - dscr) + 1;
-	memcpy(ptr, dscr, buflen);
+	{
+		/* 11.3.1: the mantissa is represented in the fewest octets necessary */
+		const uint8_t *mstart = dscr;
+		while(mstart < mstop && *mstart == 0) mstart++;
+		buflen = (mstop - mstart) + 1;
+		memcpy(ptr, mstart, buflen);
+	}
 	ptr += buflen;
 	buflen = ptr - buf;
 
